@@ -112,7 +112,7 @@ def gen_domain(rng, discrete_only=False, constraints="maybe", priors="maybe", ma
       mid = sum(w[k] * (comps[k]["elements"][0] + comps[k]["elements"][1]) / 2 for k in (i, j))
       cons.append(dict(weights=w, rhs=float(math.floor(mid)) - 1, var_type="int"))
   pri = None
-  if priors != "no" and not cons and (priors == "yes" or rng.random() < 0.4):
+  if priors != "no" and (priors == "yes" or rng.random() < 0.4) and (not cons or priors == "yes" or rng.random() < 0.5):
     pri = []
     for c in comps:
       if c["var_type"] == "double" and rng.random() < 0.8:
